@@ -52,6 +52,15 @@
 (* optional field that is loaded through one entry point and re-sent       *)
 (* through the other is no longer recognised (mutants; must violate        *)
 (* ReloadInvisible and EntryPointAgnostic).                                *)
+(*                                                                         *)
+(* TRIPPED CONTROLLERS.  A controller may be in a tripped state at the     *)
+(* moment of a reload (a circuit breaker that is Open or HalfOpen): here a *)
+(* controller is tripped once it has absorbed TripAge traffic events.  The *)
+(* statement hands the statistics of an old rule to a new / modified rule  *)
+(* with the same statistic parameters WHATEVER the state of the old        *)
+(* controller (StatMatch looks at rules only).  Reuse = "closedOnly" is    *)
+(* the broken variant that takes over the statistics only of controllers   *)
+(* that are not tripped (must violate ReuseRespected / NoStatWasted).      *)
 (***************************************************************************)
 EXTENDS Integers, Sequences, FiniteSets, TLC
 
@@ -104,7 +113,8 @@ CONSTANTS
     Watched,     \* the rule whose state is watched
     MaxLen,      \* bound on list length
     MaxTraffic,  \* bound on the number of traffic events
-    Reuse,       \* "statement" | "greedy" | "byPosition" | "none"
+    Reuse,       \* "statement" | "greedy" | "byPosition" | "none" | "closedOnly"
+    TripAge,     \* a controller that has absorbed TripAge traffic events is tripped (breaker Open / HalfOpen)
     Paths,       \* load entry points explored: subset of AllPaths
     Norm,        \* [Toks -> Toks]: the tuple with the defaults of its unset optional fields spelled out
     Defaulting   \* entry points ("whole", "res") that store / compare the defaulted copy; {} in the design under test
@@ -153,6 +163,14 @@ MatchSC(alg, sc, old, new) ==
                                                      ELSE IF i \in DOMAIN old /\ sc[old[i]] # "none" /\ sc[old[i]] = sc[new[i]]
                                                           THEN [c |-> 0, s |-> i] ELSE [c |-> 0, s |-> 0]]
       [] alg = "none"       -> [i \in DOMAIN new |-> [c |-> 0, s |-> 0]]
+\* the same with the set trp of old positions whose controller is tripped at the moment of the reload: the relation of
+\* the statement (and the other variants) does not look at it; "closedOnly" refuses the statistics of a tripped controller
+MatchT(alg, sc, old, new, trp) ==
+    IF alg = "closedOnly"
+    THEN LET m == ReuseStatement(sc, old, new)
+         IN  [i \in DOMAIN new |-> IF m[i].c = 0 /\ m[i].s \in trp THEN [c |-> 0, s |-> 0] ELSE m[i]]
+    ELSE MatchSC(alg, sc, old, new)
+TrippedOf(inst) == {j \in DOMAIN inst : inst[j].ca >= TripAge}
 Match(alg, old, new) == MatchSC(alg, StatClass, old, new)
 
 \* identity under which a rule sent through `path' is stored and compared
@@ -160,7 +178,7 @@ Key(path, t)      == IF Entry(path) \in Defaulting THEN Norm[t] ELSE t
 KeysOf(inst)      == [i \in DOMAIN inst |-> inst[i].key]
 KeyList(path, s)  == [i \in DOMAIN s |-> Key(path, s[i])]
 \* what the reuse algorithm does with list `new' sent through `path' (it sees the stored keys)
-MatchVia(alg, inst, path, new) == Match(alg, KeysOf(inst), KeyList(path, new))
+MatchVia(alg, inst, path, new) == MatchT(alg, StatClass, KeysOf(inst), KeyList(path, new), TrippedOf(inst))
 
 Apply(inst, path, new, m) ==
     [i \in DOMAIN new |-> [tok |-> new[i],
@@ -169,7 +187,7 @@ Apply(inst, path, new, m) ==
                            sa  |-> IF m[i].s # 0 THEN inst[m[i].s].sa ELSE 0]]
 \* one load of list `new' through `path' on instance `inst' (sc: statistic-parameter classes)
 LoadSC(alg, sc, inst, path, new) ==
-    IF Skipped(path, ToksOf(inst), new) THEN inst ELSE Apply(inst, path, new, MatchSC(alg, sc, KeysOf(inst), KeyList(path, new)))
+    IF Skipped(path, ToksOf(inst), new) THEN inst ELSE Apply(inst, path, new, MatchT(alg, sc, KeysOf(inst), KeyList(path, new), TrippedOf(inst)))
 Load(alg, inst, path, new) == LoadSC(alg, StatClass, inst, path, new)
 \* one traffic event: every controller and every statistic absorbs it
 Aged(sc, inst) == [i \in DOMAIN inst |-> [inst[i] EXCEPT !.ca = @ + 1, !.sa = IF sc[inst[i].tok] = "none" THEN 0 ELSE @ + 1]]
@@ -203,8 +221,8 @@ ReloadAny(new) ==
     LET old == ToksOf(P)
         kW  == KeyList("whole", new)
         kR  == KeyList("res", new)
-    IN  \E mW \in {Match(Reuse, KeysOf(P), kW)} :
-        \E mR \in {IF kR = kW THEN mW ELSE Match(Reuse, KeysOf(P), kR)} :
+    IN  \E mW \in {MatchT(Reuse, StatClass, KeysOf(P), kW, TrippedOf(P))} :
+        \E mR \in {IF kR = kW THEN mW ELSE MatchT(Reuse, StatClass, KeysOf(P), kR, TrippedOf(P))} :
         \E rW \in {Respected(old, new, mW)} :
         \E rR \in {IF kR = kW THEN rW ELSE Respected(old, new, mR)} :
         \E path \in Paths : IF Entry(path) = "res" THEN ReloadWith(path, new, mR, rR) ELSE ReloadWith(path, new, mW, rW)
